@@ -140,6 +140,7 @@ Proof.
   - (* TTuple *) apply ev_S. eapply ev_ext; [intros m; apply unm_S|]. cbv beta iota. unfold tuple_body in *.
     destruct (load rt x) as [d|e| |]; cbn [bind done] in *; try discriminate Hd; try apply ev_const.
     destruct (itervalues rt d) as [vs|e| |]; cbn [bind done] in *; try discriminate Hd; try apply ev_const.
+    rewrite map_length. destruct (Nat.ltb (length vs) (length ts)); [apply ev_const|].
     apply ev_bind; [|intros out _; apply ev_const|exact Hd].
     assert (Hdm : done (mapM (fun tv => unm rt E n (fst tv) (snd tv)) (zip_trunc ts vs)) = true).
     { destruct (bind_done _ _ Hd) as [[o [Ho _]]|[e He]]; [rewrite Ho|rewrite He]; reflexivity. }
@@ -350,6 +351,7 @@ Proof.
   - (* TTuple *) unfold tuple_body in *.
     destruct (load rt x) as [d|e| |]; cbn [bind done] in *; try discriminate Hd; try (exists 0; reflexivity).
     destruct (itervalues rt d) as [vs|e| |]; cbn [bind done] in *; try discriminate Hd; try (exists 0; reflexivity).
+    rewrite map_length in Hd |- *. destruct (Nat.ltb (length vs) (length ts)); [exists 0; reflexivity|].
     apply ev_bind; [|intros out _; apply ev_const|exact Hd].
     assert (Hdm : done (mapM (fun tv => unm rt E' n (fst tv) (snd tv)) (zip_trunc (map dnorm ts) vs)) = true).
     { destruct (bind_done _ _ Hd) as [[o [Ho _]]|[e He]]; [rewrite Ho|rewrite He]; reflexivity. }
